@@ -156,6 +156,8 @@ type ContractSet struct {
 	PkgStates []*PkgStateSpec
 	Sweeps []SweepEntry
 	Rxps   []*RxpSpec
+	LoadErrors []string
+	Seconds []*Contract // second contracts of a key (one of the pair has to be scoped)
 	Scoped map[string]*Contract // `only PROPS` contracts, consulted before Funcs when the property matches
 	FieldInvs []*FieldInv
 	FieldGroups map[string][]string
@@ -491,7 +493,10 @@ func (cs *ContractSet) LoadFile(file string) error {
 			} else {
 				// several contracts per extern key are allowed when distinguished by format
 				if old, dup := cs.Funcs[key]; dup && !old.Extern {
-					return fmt.Errorf("%s: duplicate contract for %s", where, key)
+					// a second contract is allowed when one of the two is scoped
+					// (`only PROPS`); sorted out in applySweeps
+					cs.Seconds = append(cs.Seconds, cur)
+					continue
 				}
 				if _, dup := cs.Funcs[key]; !dup {
 					cs.Funcs[key] = cur
@@ -853,6 +858,16 @@ func (cs *ContractSet) applySweeps() {
 		if len(c.OnlyProps) > 0 {
 			cs.Scoped[k] = c
 			delete(cs.Funcs, k)
+		}
+	}
+	for _, c := range cs.Seconds {
+		switch {
+		case len(c.OnlyProps) > 0 && cs.Scoped[c.Key] == nil:
+			cs.Scoped[c.Key] = c
+		case len(c.OnlyProps) == 0 && cs.Funcs[c.Key] == nil:
+			cs.Funcs[c.Key] = c
+		default:
+			cs.LoadErrors = append(cs.LoadErrors, fmt.Sprintf("%s: duplicate contract for %s", c.File, c.Key))
 		}
 	}
 	for _, sw := range cs.Sweeps {
